@@ -99,8 +99,30 @@ def install(E):
     reg('ZI', zint)
     def zadd(e, a): x, y = common(zi(a[0]), zi(a[1]), 1); return mk(z3.simplify(x + y))
     def zsub(e, a): x, y = common(zi(a[0]), zi(a[1]), 1); return mk(z3.simplify(x - y))
+    def strip(t):
+        """(narrow unsigned core, True) if t is a zero-extension of it / a non-negative constant, else (t, False)"""
+        t = z3.simplify(t); u = False
+        while z3.is_app(t):
+            k = t.decl().kind()
+            if k == z3.Z3_OP_ZERO_EXT: t = t.arg(0); u = True; continue
+            if k == z3.Z3_OP_CONCAT and t.num_args() == 2 and z3.is_bv_value(t.arg(0)) and t.arg(0).as_long() == 0: t = t.arg(1); u = True; continue
+            break
+        if z3.is_bv_value(t) and not u:
+            v = t.as_signed_long()
+            if v >= 0: return z3.BitVecVal(v, max(1, v.bit_length())), True
+        return t, u
     def zmul(e, a):
-        x, y = zi(a[0]), zi(a[1]); w = x.size() + y.size()
+        x, y = zi(a[0]), zi(a[1])
+        (xs, xu), (ys, yu) = strip(x), strip(y)
+        if xu and yu:      # product of two non-negative narrow values: multiply narrow, then extend
+            if z3.is_bv_value(xs): xs, ys = ys, xs
+            if z3.is_bv_value(ys):      # canonical widening product with a constant (same term as core.intop builds for x / c)
+                c = ys.as_long(); cb = max(1, c.bit_length())
+                return mk(z3.ZeroExt(1, z3.ZeroExt(cb, xs) * z3.BitVecVal(c, xs.size() + cb)))
+            w = xs.size() + ys.size()
+            p = z3.ZeroExt(w - xs.size(), xs) * z3.ZeroExt(w - ys.size(), ys)
+            return mk(z3.ZeroExt(1, p))
+        w = x.size() + y.size()
         return mk(z3.simplify(ext(x, w) * ext(y, w)))
     reg('ZAdd', zadd); reg('ZSub', zsub); reg('ZMul', zmul)
     zcnt = [0]
